@@ -111,7 +111,8 @@ def _exec_one(sched):
     import poolrun
     try:
         r = poolrun.execute(sched)
-        return {"ok": True, "trace": r["trace"], "drift": r["drift"], "skipped": r["skipped"]}
+        return {"ok": True, "trace": r["trace"], "drift": r["drift"], "skipped": r["skipped"],
+                "xlog": r["xlog"] if sched.get("want_xlog") else None}
     except Exception as ex:  # harness crash: machinery failure for that schedule
         import traceback
         return {"ok": False, "err": "%s: %s" % (type(ex).__name__, ex), "tb": traceback.format_exc()}
